@@ -5,6 +5,7 @@ import (
 	"go/ast"
 	"go/token"
 	"go/types"
+	"golang.org/x/tools/go/cfg"
 	"os"
 	"sort"
 	"strings"
@@ -195,8 +196,14 @@ func sortedBeforeUse(inf *types.Info, fd *ast.FuncDecl, obj types.Object, after 
 	par := core.Parents(fd)
 	for p := par[firstUse]; p != nil; p = par[p] {
 		if call, ok := p.(*ast.CallExpr); ok {
+			if tv, isConv := inf.Types[call.Fun]; isConv && tv.IsType() {
+				// sort.Sort(byKey(keys)): a conversion to a named slice type shares the backing array
+				if _, isSlice := tv.Type.Underlying().(*types.Slice); isSlice {
+					continue
+				}
+			}
 			f := core.Callee(inf, call)
-			if f != nil && f.Pkg() != nil && (f.Pkg().Path() == "sort" || f.Pkg().Path() == "slices") && strings.HasPrefix(f.Name(), "S") && len(call.Args) >= 1 && rootIdent(call.Args[0]) == firstUse {
+			if f != nil && f.Pkg() != nil && (f.Pkg().Path() == "sort" || f.Pkg().Path() == "slices") && strings.HasPrefix(f.Name(), "S") && len(call.Args) >= 1 && rootIdent(stripSliceConv(inf, call.Args[0])) == firstUse {
 				return true, ""
 			}
 			break
@@ -206,6 +213,25 @@ func sortedBeforeUse(inf *types.Info, fd *ast.FuncDecl, obj types.Object, after 
 		}
 	}
 	return false, "the slice filled in map order is used before being sorted"
+}
+
+// stripSliceConv removes conversions between slice types (which share the backing array).
+func stripSliceConv(inf *types.Info, e ast.Expr) ast.Expr {
+	for {
+		e = core.Unparen(e)
+		call, ok := e.(*ast.CallExpr)
+		if !ok || len(call.Args) != 1 {
+			return e
+		}
+		tv, ok := inf.Types[call.Fun]
+		if !ok || !tv.IsType() {
+			return e
+		}
+		if _, isSlice := tv.Type.Underlying().(*types.Slice); !isSlice {
+			return e
+		}
+		e = call.Args[0]
+	}
 }
 
 func classifyMapRange(c *core.Ctx, s *mapRangeSite) (idiom string, bad string) {
@@ -749,61 +775,247 @@ func runR103(c *core.Ctx) {
 	}
 }
 
+// elementwiseEqual decides, on the control flow graph, that a container comparison answers anything but the constant
+// false only when (L) the lengths were found equal, (P) a loop over one of the two containers ran to its natural end, and
+// every iteration of it reached the loop head again only through the true outcome of equals(P[k], Q[k]) (and, for maps,
+// of the presence test of k in the other map).  It returns "" or the reason.
+func elementwiseEqual(c *core.Ctx, inf *types.Info, fd *ast.FuncDecl) string {
+	var params []types.Object
+	var eq types.Object
+	for _, f := range fd.Type.Params.List {
+		for _, id := range f.Names {
+			o := inf.Defs[id]
+			if _, isFn := o.Type().Underlying().(*types.Signature); isFn {
+				eq = o
+			} else {
+				params = append(params, o)
+			}
+		}
+	}
+	if len(params) != 2 || eq == nil {
+		return "expected two containers and a comparison function"
+	}
+	_, isMap := params[0].Type().Underlying().(*types.Map)
+	isContainer := func(o types.Object) bool { return o != nil && (o == params[0] || o == params[1]) }
+	lenOfParam := func(e ast.Expr) types.Object {
+		call, ok := core.Unparen(e).(*ast.CallExpr)
+		if !ok || len(call.Args) != 1 {
+			return nil
+		}
+		if b, ok := core.ObjOf(inf, call.Fun).(*types.Builtin); !ok || b.Name() != "len" {
+			return nil
+		}
+		if o := core.ObjOf(inf, call.Args[0]); isContainer(o) {
+			return o
+		}
+		return nil
+	}
+	// candidate loops
+	type loopInfo struct {
+		stmt      ast.Stmt
+		body      *ast.BlockStmt
+		over      types.Object // container traversed
+		key, elem types.Object
+	}
+	var loops []loopInfo
+	ast.Inspect(fd.Body, func(n ast.Node) bool {
+		switch x := n.(type) {
+		case *ast.FuncLit:
+			return false
+		case *ast.RangeStmt:
+			li := loopInfo{stmt: x, body: x.Body}
+			if x.Key != nil {
+				li.key = core.ObjOf(inf, x.Key)
+			}
+			if x.Value != nil {
+				li.elem = core.ObjOf(inf, x.Value)
+			}
+			if o := core.ObjOf(inf, x.X); isContainer(o) {
+				li.over = o
+			} else if o := lenOfParam(x.X); o != nil && !isMap {
+				li.over = o
+			}
+			if li.over != nil && li.key != nil && x.Tok == token.DEFINE {
+				loops = append(loops, li)
+			}
+		case *ast.ForStmt:
+			if isMap || x.Init == nil || x.Cond == nil || x.Post == nil {
+				return true
+			}
+			as, ok := x.Init.(*ast.AssignStmt)
+			if !ok || as.Tok != token.DEFINE || len(as.Lhs) != 1 || len(as.Rhs) != 1 {
+				return true
+			}
+			if cv := core.ConstOf(inf, as.Rhs[0]); cv == nil || cv.ExactString() != "0" {
+				return true
+			}
+			i := core.ObjOf(inf, as.Lhs[0])
+			be, ok := core.Unparen(x.Cond).(*ast.BinaryExpr)
+			if !ok {
+				return true
+			}
+			var over types.Object
+			switch {
+			case (be.Op == token.LSS || be.Op == token.NEQ) && core.ObjOf(inf, be.X) == i:
+				over = lenOfParam(be.Y)
+			case (be.Op == token.GTR || be.Op == token.NEQ) && core.ObjOf(inf, be.Y) == i:
+				over = lenOfParam(be.X)
+			}
+			inc, ok := x.Post.(*ast.IncDecStmt)
+			if over == nil || !ok || inc.Tok != token.INC || core.ObjOf(inf, inc.X) != i {
+				return true
+			}
+			for _, o := range core.AssignedObjs(inf, x.Body) {
+				if o == i {
+					return true
+				}
+			}
+			loops = append(loops, loopInfo{stmt: x, body: x.Body, over: over, key: i})
+		}
+		return true
+	})
+	if len(loops) == 0 {
+		return "no loop over one of the two containers"
+	}
+	const (
+		sL = 1 << iota
+		sE
+		sK
+		sIn
+		sP
+	)
+	var last string
+	for _, lp := range loops {
+		// element expressions: P[k] / the range value variable / a local bound to one of them in the body
+		other := params[0]
+		if lp.over == other {
+			other = params[1]
+		}
+		var okVar types.Object
+		bound := map[types.Object]types.Object{} // local -> container it is the k-th element of
+		if lp.elem != nil {
+			bound[lp.elem] = lp.over
+		}
+		var elemOf func(e ast.Expr) types.Object
+		elemOf = func(e ast.Expr) types.Object {
+			e = core.Unparen(e)
+			if ix, ok := e.(*ast.IndexExpr); ok {
+				if o := core.ObjOf(inf, ix.X); isContainer(o) && core.ObjOf(inf, ix.Index) == lp.key {
+					return o
+				}
+				return nil
+			}
+			if id, ok := e.(*ast.Ident); ok {
+				return bound[core.ObjOf(inf, id)]
+			}
+			return nil
+		}
+		ast.Inspect(lp.body, func(n ast.Node) bool {
+			as, ok := n.(*ast.AssignStmt)
+			if !ok || as.Tok != token.DEFINE || len(as.Rhs) != 1 {
+				return true
+			}
+			if o := elemOf(as.Rhs[0]); o != nil {
+				bound[core.ObjOf(inf, as.Lhs[0])] = o
+				if len(as.Lhs) == 2 && o == other {
+					okVar = core.ObjOf(inf, as.Lhs[1])
+				}
+			}
+			return true
+		})
+		for _, o := range core.AssignedObjs(inf, lp.body) {
+			if _, isBound := bound[o]; isBound || o == lp.key {
+				// reassigned element variables are not tracked
+				redefined := false
+				ast.Inspect(lp.body, func(n ast.Node) bool {
+					if as, ok := n.(*ast.AssignStmt); ok && as.Tok != token.DEFINE {
+						for _, l := range as.Lhs {
+							if core.ObjOf(inf, l) == o {
+								redefined = true
+							}
+						}
+					}
+					return true
+				})
+				if redefined {
+					delete(bound, o)
+				}
+			}
+		}
+		var bad string
+		flow := core.NewFlow(c.M, inf, fd.Body)
+		flow.Run(&core.Automaton{
+			Init: 0,
+			Block: func(st int, b *cfg.Block) int {
+				if b.Stmt != lp.stmt {
+					return st
+				}
+				switch b.Kind {
+				case cfg.KindRangeLoop, cfg.KindForLoop:
+					if st&sIn != 0 && (st&sE == 0 || (isMap && st&sK == 0)) {
+						bad = "an iteration can end without the elements (and, for maps, the presence of the key) having compared equal"
+					}
+					return (st &^ (sIn | sE | sK)) | sP
+				case cfg.KindRangeBody, cfg.KindForBody:
+					if _, hasHead := lp.stmt.(*ast.ForStmt); hasHead || b.Kind == cfg.KindRangeBody {
+						return (st &^ (sE | sK)) | sIn
+					}
+				}
+				return st
+			},
+			Node: func(st int, n ast.Node) int {
+				r, ok := n.(*ast.ReturnStmt)
+				if !ok {
+					return st
+				}
+				for _, res := range r.Results {
+					if cv := core.ConstOf(inf, res); cv != nil && cv.ExactString() == "false" {
+						continue
+					}
+					switch {
+					case st&sL == 0:
+						bad = "a result other than false is returned on a path where the lengths were not compared equal"
+					case st&sP == 0 || st&sIn != 0:
+						bad = "a result other than false is returned before the loop over the elements has finished"
+					}
+				}
+				return st
+			},
+			Edge: func(st int, facts []core.Fact) (int, bool) {
+				for _, f := range facts {
+					e := core.Unparen(f.Expr)
+					if be, ok := e.(*ast.BinaryExpr); ok && ((be.Op == token.EQL && f.Val) || (be.Op == token.NEQ && !f.Val)) {
+						if a, b := lenOfParam(be.X), lenOfParam(be.Y); a != nil && b != nil && a != b {
+							st |= sL
+						}
+					}
+					if call, ok := e.(*ast.CallExpr); ok && f.Val && len(call.Args) == 2 && core.ObjOf(inf, call.Fun) == eq {
+						if a, b := elemOf(call.Args[0]), elemOf(call.Args[1]); a != nil && b != nil && a != b {
+							st |= sE
+						}
+					}
+					if id, ok := e.(*ast.Ident); ok && f.Val && okVar != nil && core.ObjOf(inf, id) == okVar {
+						st |= sK
+					}
+				}
+				return st, true
+			},
+		})
+		if bad == "" {
+			return ""
+		}
+		last = bad
+	}
+	return last
+}
+
 func runR104(c *core.Ctx) {
 	const rel = "restli/equals"
 	inf := info(c, rel)
 	for _, name := range []string{"GenericArray", "GenericMap"} {
 		_, fd := mustDecl(c, rel, name)
-		lenFirst, loopFalse, tailTrue := false, false, false
-		if len(fd.Body.List) >= 3 {
-			if ifs, ok := fd.Body.List[0].(*ast.IfStmt); ok {
-				if be, ok := core.Unparen(ifs.Cond).(*ast.BinaryExpr); ok && be.Op == token.NEQ {
-					isLen := func(e ast.Expr) bool {
-						call, ok := core.Unparen(e).(*ast.CallExpr)
-						if !ok {
-							return false
-						}
-						id, ok := core.Unparen(call.Fun).(*ast.Ident)
-						return ok && id.Name == "len" && len(call.Args) == 1 && isParamOf(inf, fd, asVar(core.ObjOf(inf, call.Args[0])))
-					}
-					if isLen(be.X) && isLen(be.Y) && returnsConst(inf, ifs.Body, "false") {
-						lenFirst = true
-					}
-				}
-			}
-			if rs, ok := fd.Body.List[1].(*ast.RangeStmt); ok {
-				ast.Inspect(rs.Body, func(n ast.Node) bool {
-					ifs, ok := n.(*ast.IfStmt)
-					if !ok || !returnsConst(inf, ifs.Body, "false") {
-						return true
-					}
-					// cond mentions !equals(…) (and !ok for maps)
-					negEq, negOK := false, name == "GenericArray"
-					for _, f := range core.Decompose(ifs.Cond, false, nil) {
-						// cond false => all of these hold; i.e. cond is a disjunction of their negations
-						if call, ok := core.Unparen(f.Expr).(*ast.CallExpr); ok && f.Val {
-							if id, ok := core.Unparen(call.Fun).(*ast.Ident); ok && isParamOf(inf, fd, asVar(core.ObjOf(inf, id))) {
-								negEq = true
-							}
-						}
-						if id, ok := core.Unparen(f.Expr).(*ast.Ident); ok && f.Val && id.Name == "ok" {
-							negOK = true
-						}
-					}
-					if negEq && negOK {
-						loopFalse = true
-					}
-					return true
-				})
-			}
-			if r, ok := fd.Body.List[len(fd.Body.List)-1].(*ast.ReturnStmt); ok && len(r.Results) == 1 {
-				if cv := core.ConstOf(inf, r.Results[0]); cv != nil && cv.ExactString() == "true" {
-					tailTrue = true
-				}
-			}
-		}
-		c.Check(lenFirst && loopFalse && tailTrue, rel, name, "length compared first, every element compared, true only after the loop", fd.Pos(), "",
-			fmt.Sprintf("length-mismatch exit=%v, unequal-element exit=%v, final true=%v", lenFirst, loopFalse, tailTrue))
+		why := elementwiseEqual(c, inf, fd)
+		c.Check(why == "", rel, name, "length compared first, every element compared, true only after the loop", fd.Pos(), "", why)
 	}
 	// GenericPointer over all atoms
 	_, gp := mustDecl(c, rel, "GenericPointer")
